@@ -187,6 +187,46 @@ class CFG:
             return facts
         return normalise_facts(self._expand_named_tests(normalise_facts(facts)))
 
+    def subst_named(self, e: ast.AST, depth: int = 2) -> ast.AST:
+        """e with every local that is assigned exactly once from a comparison / boolean expression / call replaced by that expression (a copy; the
+        original nodes are shared, so identity tests on sub-expressions - `x is some_call` - keep working)."""
+        if depth <= 0:
+            return e
+        try:
+            body_nodes = list(self.f.walk())
+        except Exception:
+            return e
+
+        def value_of(name: str) -> Optional[ast.AST]:
+            vals = [n.value for n in body_nodes if isinstance(n, (ast.Assign, ast.AnnAssign)) and n.value is not None and
+                    any(isinstance(x, ast.Name) and x.id == name for x in (n.targets if isinstance(n, ast.Assign) else [n.target]))]
+            aug = any(isinstance(n, ast.AugAssign) and isinstance(n.target, ast.Name) and n.target.id == name for n in body_nodes)
+            if len(vals) == 1 and not aug and isinstance(vals[0], (ast.Compare, ast.BoolOp, ast.UnaryOp, ast.Call)):
+                return vals[0]
+            return None
+        if isinstance(e, ast.Name):
+            v = value_of(e.id)
+            return self.subst_named(v, depth - 1) if v is not None else e
+        if isinstance(e, ast.UnaryOp) and isinstance(e.op, ast.Not):
+            inner = self.subst_named(e.operand, depth)
+            if inner is not e.operand:
+                n = ast.UnaryOp(op=ast.Not(), operand=inner)
+                ast.copy_location(n, e)
+                return n
+            return e
+        if isinstance(e, ast.BoolOp):
+            vals2 = [self.subst_named(v, depth) for v in e.values]
+            if any(a is not b for a, b in zip(vals2, e.values)):
+                n2 = ast.BoolOp(op=e.op, values=vals2)
+                ast.copy_location(n2, e)
+                return n2
+            return e
+        return e
+
+    def scenario_facts(self, node: object, no_exc: bool = True) -> List[Tuple[ast.expr, bool]]:
+        """Raw dominating facts with named booleans written out: the input of util.excluded_by()."""
+        return [(self.subst_named(t), pol) for t, pol in self._dominating_tests_raw(node, no_exc)]  # type: ignore[misc]
+
     def _expand_named_tests(self, facts: List[Tuple[ast.expr, bool]]) -> List[Tuple[ast.expr, bool]]:
         """A test of a local that is assigned exactly once from a comparison / boolean expression / call (`is_violation = thresh < 0` ... `if is_violation:`)
         is also reported as the fact about that expression: a named boolean is the test it names."""
